@@ -68,20 +68,46 @@ def register(ex):
         elif c == 0: raise PathEnd('assume-false')
     X['verif_assume'] = x_assume
 
+    def known_split(st, ident):
+        """open known findings that apply to this assertion: (finding, z3 condition or None = the whole assertion)"""
+        out = []
+        for k in ex.known:
+            if k.get('kind', 'assert') != 'assert' or not re.search(k.get('id', '.*'), ident): continue
+            w = k.get('when_z3')
+            if w is None: out.append((k, None)); continue
+            env = {n: v for n, b, v in st.inputs}
+            try: out.append((k, eval(w, {'z3': z3, 'And': z3.And, 'Or': z3.Or, 'Not': z3.Not, 'ULT': z3.ULT, 'ULE': z3.ULE, 'UGT': z3.UGT, 'UGE': z3.UGE, 'Z': env})))
+            except Exception as e: raise Inconclusive('known_findings.json when_z3 of "%s" does not evaluate: %s' % (k.get('what', '?')[:40], e))
+        return out
+
     def x_assert(st, a, nm):
         c = a[0]; ident = name_arg(st, a[1]); st.asserts += 1
         if c is None: ex.ub(st, 'uninitialised value in verif_assert(%s)' % ident)
+        kn = known_split(st, ident) if ex.known and ex.concrete is None else []
         if is_sym(c):
-            m = ex.feasible(st, c == 0)
-            if m is not None:
-                ex.record(st, 'assert', ident, ex.model_of(st, m), ex.uf_tables(m))
-                m2 = ex.feasible(st, c != 0)
-                if m2 is None: raise PathEnd('assert-fails-always')
-                ex.assume(st, c != 0, m2)
+            fail = c == 0
+            if kn:
+                # a violation outside every listed finding is new; inside one it is reported as that finding
+                whole = [k for k, w in kn if w is None]
+                if not whole:
+                    m = ex.feasible(st, z3.And(fail, *[z3.Not(w) for k, w in kn]))
+                    if m is not None: ex.record(st, 'assert', ident, ex.model_of(st, m), ex.uf_tables(m))
+                for k, w in kn:
+                    m = ex.feasible(st, fail if w is None else z3.And(fail, w))
+                    if m is not None: ex.record(st, 'assert', ident, ex.model_of(st, m), ex.uf_tables(m), known=k.get('what', 'known finding'))
+            else:
+                m = ex.feasible(st, fail)
+                if m is not None: ex.record(st, 'assert', ident, ex.model_of(st, m), ex.uf_tables(m))
+            m2 = ex.feasible(st, c != 0)
+            if m2 is None: raise PathEnd('assert-fails-always')
+            ex.assume(st, c != 0, m2)
         elif c == 0:
             m = ex.feasible(st)
             if m is None: raise PathEnd('infeasible')
-            ex.record(st, 'assert', ident, ex.model_of(st, m), ex.uf_tables(m)); raise PathEnd('assert-failed')
+            hit = None
+            for k, w in kn:
+                if w is None or ex.feasible(st, w) is not None: hit = k.get('what', 'known finding'); break
+            ex.record(st, 'assert', ident, ex.model_of(st, m), ex.uf_tables(m), known=hit); raise PathEnd('assert-failed')
     X['verif_assert'] = x_assert
 
     def x_reach(st, a, nm): st.reach.append(name_arg(st, a[0]))
